@@ -49,6 +49,9 @@ checks = {
  "C01": ("E3", E3,
    "The complete product of a 57-value alphabet (at least one value per reflect.Kind: every int/uint/float width incl. NaN/Inf/-0, strings, structs, nil and non-nil slices / maps / funcs / chans, pointers, pointer chains with a nil inside, typed nil pointers, untyped nil, nil error, nested Maybe up to depth 3, None, Just(None)) x both constructors x every MaybeDef observer, the concrete-only conversions, three fallbacks, four FlatMap functions (pairwise for associativity), ToMaybe, Clone; plus 21 concrete instantiations of JustGenerics[T]. Oracle: absent(v) computed from the definition; every observer must agree with it; FlatMap(f) observes as f(v); ToMaybe flattens exactly one level; Clone is an equal Maybe with a distinct pointer target; nothing panics.",
    "Finite value alphabet (one representative per kind and per shortcut in the code).", "DESIGN.md §4, §5 C01"),
+ "C02": ("E3", E3,
+   "Every value of bool, int8, uint8, int16, uint16 (131 586 values) plus a boundary lattice for the 32/64-bit integer types, uintptr, float32 and float64 (every bound of the 8 integer types and every power of two up to 2^64, each +-1, +-2, +7/+42, and as floats +-0.49/0.5/0.51/1.5 with both neighbours; NaN, +-Inf, -0, subnormals, MaxFloat32/64) and 70 decimal / malformed strings, x all 16 conversion methods and ToBool, judged by exact big.Int / big.Float arithmetic: a nil error implies the mathematically same (correctly rounded) value, a value that fits must convert, unsupported kinds give ErrConversionUnsupported. Thorough additionally sweeps all 2^32 float32 bit patterns x the 12 integer targets (5.2e10 conversions).",
+   "Lattice instead of full enumeration for the 32/64-bit sources (the code is piecewise with constant guards; every bound and power of two is a lattice point); values within 0.5 of a bound may convert or fail.", "DESIGN.md §4, §5 C02"),
 }
 
 not_yet = "check not built yet in this round (see DESIGN.md §9 build order); no claim made"
